@@ -119,6 +119,14 @@ CHECKS.update({
          "DESIGN.md §3 C13"),
 })
 
+CHECKS.update({
+ "C15": ("model_checking",
+         "exhaustive enumeration of grpc-timeout strings (all 1..5/7-digit values x 6 units through the real gRPC path, remaining layers through the parser hook, malformed shapes) plus stateless preemption-bounded exploration of cancellation scenarios under the controlled scheduler",
+         "Part 1: every legal timeout value of the enumerated layers must give the handler a deadline inside the bracket [receipt+T, handler start+T] (hours clamp), malformed values must be refused without invoking the handler. Part 2: for {gRPC, gRPC-web, HTTP} x {unary, client-, server-, bidi-streaming} a client-cancel thread races a feeder thread and the server thread (plus scenarios with a goroutine leaked by the handler): in every schedule the handler's ctx.Err() is non-nil at every observation after the cancel, sends started after it fail, a cancel is never reported as a clean EOF, ServeHTTP returns (deadlock detection) and nothing is written to the ResponseWriter after it returned.",
+         "Promptness is 'at the next observation'; the cancel model (context cancel + failing reads/writes) mirrors net/http; signed timeouts are not demanded.",
+         "DESIGN.md §3 C15"),
+})
+
 NOT_YET = {}
 
 def main():
